@@ -6,7 +6,8 @@ from .. import codec, gen
 from ..core import Prop, Case, obs_rows, obs_exc
 
 TYPES = {'int': int, 'bool': bool, 'float': float, 'str': str, 'bytes': bytes, 'tuple': tuple, 'NoneType': type(None)}
-USER = {0: lambda v: v >= 2, 1: lambda v: v is None, 3: lambda v: v}     # 3: a predicate that is not a bool
+USER = {0: lambda v: v >= 2, 1: lambda v: v is None, 3: lambda v: v,     # 3: a predicate that is not a bool
+        4: lambda v: v is True or v is False, 5: lambda v: type(v) is float}   # 4, 5: identity / exact type (oracle-side only)
 
 
 def _no_lists(x):
@@ -162,6 +163,15 @@ class C13(Prop):
             # membership in a string (substring semantics) and in a tuple, selectin vs selectnotin
             yield Case('select', ('field', 'a', ('in', rng.choice(['xy', 'yx', 'x', ''])), compl, None, t))
             yield Case('select', ('field', 'a', ('notin', rng.choice(['xy', 'yx', 'x', ''])), compl, None, t))
+        # values that are == and hash alike but are not the same (1 / True / 1.0, 0 / False / 0.0) under type-sensitive predicates
+        mixed = [(1, 'x', 1), (True, 'y', 2), (1.0, 'x', 3), (0, 'y', 1), (False, 'x', 2), (0.0, 'y', 3), (1, 'xy', None)]
+        for rot in range(len(mixed)):
+            tm = (('k', 'a', 'v'),) + tuple(mixed[rot:] + mixed[:rot])
+            for ty in ('int', 'bool', 'float'):
+                for compl in (False, True):
+                    yield Case('select', ('field', 'k', ('isinstance', ty), compl, None, tm))
+            yield Case('biselect', ('k', ('user', 4), None, tm))
+            yield Case('biselect', ('k', ('user', 5), None, tm))
         # all slice argument triples
         vals = [None, 0, 1, 2, 5]
         t = (('k',),) + tuple((i,) for i in range(7))
